@@ -1388,6 +1388,9 @@ async def _rl_new(ctx: Ctx, a: Actor, st: dict) -> Any:
     elif st.get("zeroconf") == "async":
         zc = FakeAsyncZeroconf(zc=FakeZeroconf("app"))
     rl = L.reconnect_logic.ReconnectLogic(client=ctx.client, on_connect=on_connect, on_disconnect=on_disconnect, zeroconf_instance=zc, name=st.get("name"), on_connect_error=on_error)
+    if st.get("name_after") is not None:
+        # the application learns the device's name later (devices configured by IP address) and assigns the public attribute
+        rl.name = st["name_after"]
     ctx.extra["rl"] = rl
     return {"name": rl.name}
 
